@@ -10,6 +10,17 @@ ALL = ["C%02d" % i for i in range(1, 21)]
 CLAIMED = json.load(open(os.path.join(HERE, "tools", "claims.json")))
 NA = json.load(open(os.path.join(HERE, "tools", "not_applicable.json")))
 
+# the level text is taken from the checker itself (propMeta.Explanation / NotDecided), so that it
+# always names the rules that are actually registered
+import glob, re
+def gostr(x):
+    return json.loads('"' + x.replace('\\`', '`') + '"') if x is not None else ""
+META = {}
+for f in glob.glob(os.path.join(HERE, "checker", "c*.go")):
+    src = open(f).read()
+    for m in re.finditer(r'ID:\s*"(C\d\d)",\s*Meta:\s*propMeta\{\s*Explanation:\s*"((?:[^"\\]|\\.)*)",\s*NotDecided:\s*"((?:[^"\\]|\\.)*)"', src):
+        META[m.group(1)] = (gostr(m.group(2)), gostr(m.group(3)))
+
 ENV = "GOFLAGS=-mod=mod GOPROXY=off GOSUMDB=off GOTOOLCHAIN=local"
 checks = []
 for pid in ALL:
@@ -23,7 +34,7 @@ for pid in ALL:
         "evidence_file": "/verif/evidence/%s.json" % pid,
         "replay_cmd_template": "./bin/relicvet -replay {path}",
         "engine": "relicvet",
-        "level_claimed": {"category": "other", "text": c["text"], "design_ref": c["design_ref"]},
+        "level_claimed": {"category": "other", "text": (META[pid][0] + " NOT DECIDED: " + META[pid][1]) if pid in META else c["text"], "design_ref": c["design_ref"]},
         "level_note": c["note"],
         "technique": c["technique"],
     })
